@@ -16,7 +16,8 @@ state / id / content / history, `L` arbitrary.
         `prefix_entry_ranged_read_equiv` (a *truncated* entry — a prefix of the repository file — never changes a ranged read),
         `dir_entry_read_equiv` / `dir_entry_ranged_read_equiv` (a directory at the entry path: the cache I/O error is
         swallowed, the answer is the repository's), `link_entry_read_equiv` / `link_entry_ranged_read_equiv` (a dangling
-        symlink there: a miss), `link_entry_replaced_by_write`, `tmp_link_removed_by_write`.
+        symlink there: a miss), `link_entry_replaced_by_write`, `tmp_link_removed_by_write`, `blocked_parent_*` (a regular
+        file or a dangling symlink where `<type>` or `<type>/<xx>` belongs: nothing is cached, reads from the repository).
 * (3) `transparent` — hence whole histories give identical results and identical repository contents (directories anywhere
         but at the temp path of a file written); `transparent_content_addressed` — under content addressing (a key always
         stores the same bytes) with directories ANYWHERE.
@@ -160,15 +161,12 @@ theorem prefix_entry_ranged_read_equiv {s : St} {t : FileType} {id : Name} (h : 
   unfold readPartial
   by_cases hcb : (cb || isCacheable t) = true
   · simp only [hcb, if_true]
-    rw [cReadPartial_eq _ _ _ _ _ hlen]
     cases hh : cHit s.dirs s.cache t id with
     | none =>
-      by_cases hd : hasDir s.dirs (cpath t id) = true
-      · simp only [hd, if_true]; exact readPartialThrough_fst s t id off len
-      · simp only [hd, Bool.false_eq_true, if_false]; exact readPartialThrough_fst s t id off len
+      rcases cReadPartial_of_none hh off hlen with h0 | h0 <;> rw [h0] <;> exact readPartialThrough_fst s t id off len
     | some d' =>
       obtain ⟨d, hb, hp⟩ := h d' hh
-      simp only
+      rw [cReadPartial_of_hit hh off hlen]
       by_cases hr : off + len ≤ d'.length
       · have hle : d'.length ≤ d.length := by
           have := congrArg List.length hp
@@ -209,10 +207,10 @@ theorem dir_entry_ranged_read_equiv {s : St} {t : FileType} {id : Name} (hd : ha
 /-- quirk (stated, observed on the real code): with a directory at the entry path every read / write of that file
 through the cached handle leaves the temp file `<id>-tmp-` behind (the failed `rename` is not cleaned up). -/
 theorem dir_entry_write_leaves_tmp (dirs : List Path) (c : CD) (t : FileType) (id : Name) (d : Bytes)
-    (hd : hasDir dirs (cpath t id) = true) (ht : tmpBlocked dirs c t id = false) :
+    (hp : parentObj c t id = none) (hd : hasDir dirs (cpath t id) = true) (ht : tmpBlocked dirs c t id = false) :
     fget (cWrite dirs c t id d).files (ctmp t id) = some d := by
   simp only [tmpBlocked, Bool.or_eq_false_iff] at ht
-  simp [cWrite, hd, ht.1, ht.2, fget_fput_same]
+  simp [cWrite, hp, hd, ht.1, ht.2, fget_fput_same]
 
 /-! ### (2c) a dangling symlink at the entry path
 
@@ -233,16 +231,34 @@ theorem link_entry_replaced_by_write (dirs : List Path) (c : CD) {t : FileType} 
     (hw : writes dirs c t id = true) :
     cHit dirs (cWrite dirs c t id d) t id = some d ∧ hasLink (cWrite dirs c t id d) (cpath t id) = false := by
   refine ⟨by rw [cHit_cWrite dirs c (L := id.length) rfl rfl d]; simp [hw], ?_⟩
-  simp only [writes, Bool.and_eq_true, Bool.not_eq_eq_eq_not, Bool.not_true] at hw
-  simp only [cWrite, hw.1.1, hw.1.2, hw.2, Bool.false_eq_true, if_false]
+  simp only [writes, Bool.and_eq_true, Bool.not_eq_eq_eq_not, Bool.not_true, Option.isNone_iff_eq_none] at hw
+  simp only [cWrite, hw.1.1.1, hw.1.1.2, hw.1.2, hw.2, Bool.false_eq_true, if_false, Option.isSome_none]
   exact hasLink_unlink_same c (cpath t id)
 
 /-- a dangling symlink at the temp path: the cache write fails once and its clean-up removes the link -/
 theorem tmp_link_removed_by_write (dirs : List Path) (c : CD) {t : FileType} {id : Name} (d : Bytes)
-    (hd : hasDir dirs (ctmp t id) = false) (hk : hasLink c (ctmp t id) = true) :
+    (hp : parentObj c t id = none) (hd : hasDir dirs (ctmp t id) = false) (hk : hasLink c (ctmp t id) = true) :
     cWrite dirs c t id d = unlink c (ctmp t id) ∧ tmpBlocked dirs (cWrite dirs c t id d) t id = false := by
-  have e : cWrite dirs c t id d = unlink c (ctmp t id) := by simp [cWrite, hd, hk]
+  have e : cWrite dirs c t id d = unlink c (ctmp t id) := by simp [cWrite, hp, hd, hk]
   exact ⟨e, by rw [e]; simp [tmpBlocked, hd, hasLink_unlink_same]⟩
+
+/-! ### (2d) a regular file or a dangling symlink where a parent directory (`<type>`, `<type>/<xx>`) belongs
+
+Every cache operation on the ids below fails (`ENOTDIR` / `ENOENT`, `create_dir_all` fails) and is only logged: reads are
+answered from the repository, the cache directory is not touched. -/
+
+theorem blocked_parent_read_equiv {s : St} {t : FileType} {id : Name} (hp : (parentObj s.cache t id).isSome = true) :
+    (readFull s t id).1 = beReadFull s.be t id :=
+  entry_coherent_read_equiv (fun d h => by rw [cHit_of_parent _ hp] at h; cases h)
+
+theorem blocked_parent_ranged_read_equiv {s : St} {t : FileType} {id : Name} (hp : (parentObj s.cache t id).isSome = true)
+    (cb : Bool) (off : Nat) {len : Nat} (hlen : 0 < len) :
+    (readPartial s t id cb off len).1 = beReadPartial s.be t id off len :=
+  prefix_entry_ranged_read_equiv (fun d h => by rw [cHit_of_parent _ hp] at h; cases h) cb off hlen
+
+theorem blocked_parent_cache_untouched (dirs : List Path) (c : CD) {t : FileType} {id : Name}
+    (hp : (parentObj c t id).isSome = true) (d : Bytes) : cWrite dirs c t id d = c ∧ cRemove dirs c t id = c := by
+  simp [cWrite, cRemove, hp]
 
 /-! ### (1) every operation keeps coherence and acts on the repository like the bare backend
 
@@ -274,12 +290,17 @@ theorem coh_cWrite {s : St} (hc : Coh L s) {t : FileType} {id : Name} (hl : id.l
       by_cases htmp : tmpBlocked s.dirs s.cache t' id' = true
       · -- the cache write was blocked at the temp path: the old entry stays, and it holds the bytes written
         rw [hw htmp d' h']; exact hbe
-      · -- the write did not get through although the temp path is free: a directory sits at the entry path — no entry
-        have hdir : hasDir s.dirs (cpath t' id') = true := by
-          simp only [tmpBlocked, Bool.or_eq_true, not_or, Bool.not_eq_true] at htmp
-          simp only [writes, htmp.1, htmp.2, Bool.not_false, Bool.true_and, Bool.not_eq_eq_eq_not, Bool.not_true] at hwr
-          simpa using hwr
-        rw [cHit_of_dir _ hdir] at h'; cases h'
+      · -- the write did not get through although the temp path is free: a directory sits at the entry path, or a
+        -- non-directory where a parent directory belongs — no entry either way
+        simp only [tmpBlocked, Bool.or_eq_true, not_or, Bool.not_eq_true] at htmp
+        cases hp : parentObj s.cache t' id' with
+        | some b => rw [cHit_of_parent _ (by rw [hp]; rfl)] at h'; cases h'
+        | none =>
+          have hdir : hasDir s.dirs (cpath t' id') = true := by
+            simp only [writes, hp, htmp.1, htmp.2, Option.isNone_none, Bool.not_false, Bool.true_and,
+              Bool.not_eq_eq_eq_not, Bool.not_true] at hwr
+            simpa using hwr
+          rw [cHit_of_dir _ hdir] at h'; cases h'
   · have e' : ¬((t' = t ∧ id' = id) ∧ writes s.dirs s.cache t id = true) := fun h => e h.1
     rw [if_neg e'] at h'
     rw [hoth (t', id') (fun h => e (by cases h; exact ⟨rfl, rfl⟩))]
@@ -641,9 +662,9 @@ theorem truncated_entry_falls_through (s : St) (t : FileType) {id : Name} (hl : 
   have hr : ¬ (off + len ≤ d'.length) := by omega
   have hwr : writes s.dirs s.cache t id = true := by
     simp only [tmpBlocked, Bool.or_eq_false_iff] at hw
-    simp [writes, hw.1, hw.2, (cHit_some hc).1]
+    simp [writes, hw.1, hw.2, (cHit_some hc).1, (cHit_some hc).2.1]
   unfold readPartial
-  simp only [hon, if_true, cReadPartial_eq _ _ _ _ _ hlen, hc, hr, if_false, readPartialThrough, hb, hin]
+  simp only [hon, if_true, cReadPartial_of_hit hc off hlen, hr, if_false, readPartialThrough, hb, hin]
   exact ⟨trivial, by rw [cHit_cWrite s.dirs s.cache hl hl d]; simp [hwr]⟩
 
 /-- `read_full` has no size check: what lies at the entry's path is served — before a listing a stale or truncated
@@ -699,6 +720,15 @@ example :
     let s : St := { be := be1, cache := { files := [], links := [ctmp .snapshot idA] } }
     (readFull s .snapshot idA).2.cache.files = [] ∧ (readFull s .snapshot idA).2.cache.links = [] ∧
     (readFull (readFull s .snapshot idA).2 .snapshot idA).2.cache.files = [(cpath .snapshot idA, [1, 2, 3, 4])] := by decide
+/-- a regular file where `snapshots/aa` belongs (replayed on the real code): reads from the repository, cache untouched;
+the same with a dangling symlink there -/
+example :
+    let s : St := { be := be1, cache := { files := [([nSnapshots, ['a', 'a']], [7])] } }
+    (readFull s .snapshot idA).1 = .ok [1, 2, 3, 4] ∧ (readFull s .snapshot idA).2.cache.files = s.cache.files ∧
+    (readPartial s .snapshot idA false 1 2).1 = .ok [2, 3] ∧
+    (writeBytes s .snapshot idA false [1, 2, 3, 4]).cache.files = s.cache.files ∧
+    cReadFull [] s.cache .snapshot idA = .error ∧
+    cReadFull [] { files := [], links := [[nSnapshots, ['a', 'a']]] } .snapshot idA = .miss := by decide
 /-- the exception of `OpOK`: a directory at the TEMP path blocks the cache write; an entry that exists is then not
 updated by an overwrite with other bytes (which content addressing excludes) and the cached read differs -/
 example :
